@@ -34,7 +34,10 @@ def build_cases(ctx, vh, model, nsets=40, real_frac=0.25, volume_damage=False):
         if getattr(ps, "rowswap", False):
             p = ps.paths["rowswap.bin"]
             d = base[p]
-            for trip in ((1, 129, 130), (1, 129, 135)):
+            # (1, 129) alone: the two lowest surviving blocks {0, 255} form a SINGULAR system for these two slices (their
+            # constants agree in the 255th power): the one failure the property permits - it must be the singular error,
+            # with nothing written
+            for trip in ((1, 129, 130), (1, 129, 135), (1, 129)):
                 nd = bytearray(d)
                 for sl in trip:
                     nd[4 * sl] ^= 0x55
@@ -150,6 +153,11 @@ def run(ctx):
         if px["res"] in ("panic", "crash"):
             report("Repair crashed (%s): %s" % (c["desc"], px.get("raw", "")), replay)
             continue
+        if px["res"] == "err:singular":
+            dist["singular_outcomes"] = dist.get("singular_outcomes", 0) + 1
+            if px["changed"] or px["repaired"]:
+                report("Repair reports the singular system but wrote files: %s (%s)" % (sorted(px["changed"]) or px["repaired"], c["desc"]), replay)
+                continue
         # capacity by the proved model's count of slices that are not cleanly present
         if cm and cm["unusable"] <= cm["pusable"] and py["res"] == "ok" and px["res"] != "ok":
             report("within recovery capacity (%d unusable slices, %d blocks) but Repair failed with %s (%s)" %
